@@ -49,7 +49,7 @@ Definition pre (ss : sstate) (o : op) (r : out) : sstate :=
       if ran r then mkSS (ss_maxr ss) ((s, id) :: ss_reg ss) (ss_ctr ss) (s :: ss_starts ss) (ss_live ss) (ss_ended ss)
                          (ss_ackstart ss) (ss_ackstop ss) (ss_dropstop ss) (ss_crashed ss)
       else ss
-  | Stop _ _ cin cout _ _ | InterimTick cin cout _ _ _ | GracefulStop cin cout _ _ _ =>
+  | Stop _ _ cin cout _ _ _ | InterimTick cin cout _ _ _ _ | GracefulStop cin cout _ _ _ _ =>
       mkSS (ss_maxr ss) (ss_reg ss) ((cin, cout) :: ss_ctr ss) (ss_starts ss) (ss_live ss) (ss_ended ss)
            (ss_ackstart ss) (ss_ackstop ss) (ss_dropstop ss) (ss_crashed ss)
   | _ => ss
@@ -103,7 +103,7 @@ Definition final_ok (ss : sstate) (r : out) : bool := forallb (owed_ok ss r) (ss
 
 (* bookkeeping after the op's records *)
 Definition died (o : op) (r : out) : bool :=
-  (o_ret r =? R_CRASHED) || match o with GracefulStop _ _ _ _ _ => o_ret r =? R_OK | _ => false end.
+  (o_ret r =? R_CRASHED) || match o with GracefulStop _ _ _ _ _ _ => o_ret r =? R_OK | _ => false end.
 
 Definition post (ss : sstate) (o : op) (r : out) : sstate :=
   let ss1 :=
@@ -116,7 +116,7 @@ Definition post (ss : sstate) (o : op) (r : out) : sstate :=
           mkSS (ss_maxr ss) (ss_reg ss) (ss_ctr ss) (ss_starts ss) (ss_live ss) (s :: ss_ended ss)
                (ss_ackstart ss) (ss_ackstop ss) (ss_dropstop ss) (ss_crashed ss)
         else ss
-    | Stop s _ _ _ _ _ =>
+    | Stop s _ _ _ _ _ _ =>
         if o_ret r =? R_OK then
           mkSS (ss_maxr ss) (ss_reg ss) (ss_ctr ss) (ss_starts ss) (filter (fun x => negb (x =? s)) (ss_live ss)) (s :: ss_ended ss)
                (ss_ackstart ss) (ss_ackstop ss) (ss_dropstop ss) (ss_crashed ss)
@@ -151,3 +151,63 @@ Definition accept (ss : sstate) (o : op) (r : out) : sstate + N :=
   else if negb (op_ok 3 ss o r) then inr 3
   else if negb (op_ok 4 ss o r) then inr 4
   else inl (supd ss o r).
+
+(* ---------------------------------------------------------------------------------------------
+   clause 7  exact counters: what a Stop / Interim-Update reports is determined by the history.
+     - a record built by StopSession / the interim scan / the shutdown drain carries the counter
+       source's value for that session, or - when the source fails for that session - the last
+       values the NAS knows RADIUS accepted: those of the last Interim-Update acknowledged when it
+       was first sent (0,0 if none since the session was started);
+     - a record re-sent from the pending queue carries what an earlier transmission of a record of
+       that session and status carried;
+     - a Stop produced by orphan recovery (counter source gone) carries the last known values or 0,0.
+   Kept beside clauses 1-6 in its own small state so that their theorems are untouched; clause 6
+   (membership) stays a theorem, clause 7 is checked on every trace (Model's and implementation's). *)
+Record aux := mkA { a_last : list (N * (N * N)); a_sent : list (N * N * (N * N)) }.
+Definition ainit : aux := mkA [] [].
+
+Definition last_of (s : N) (l : list (N * (N * N))) : N * N :=
+  match find (fun p => fst p =? s) l with Some p => snd p | None => (0, 0) end.
+Definition pair_eqb (a b : N * N) : bool := (fst a =? fst b) && (snd a =? snd b).
+Definition was_sent (s st : N) (c : N * N) (l : list (N * N * (N * N))) : bool :=
+  existsb (fun p => (fst (fst p) =? s) && (snd (fst p) =? st) && pair_eqb (snd p) c) l.
+
+Definition ev7 (o : op) (a : aux) (e : wrec * bool) : bool * aux :=
+  let '(w, ack) := e in
+  if w_st w =? ST_START then (true, a)
+  else
+    let c := (join (w_in w), join (w_out w)) in
+    let s := w_sid w in
+    let direct (cin cout : N) (fe : list N) := pair_eqb c (if memN s fe then last_of s (a_last a) else (cin, cout)) in
+    let ok := match o with
+              | Stop _ _ cin cout fe _ _ | GracefulStop cin cout fe _ _ _ => direct cin cout fe
+              | InterimTick cin cout fe _ _ _ => direct cin cout fe
+              | ProcessQueued _ _ | RetryTick _ _ _ => was_sent s (w_st w) c (a_sent a)
+              | Restart _ _ _ => pair_eqb c (0, 0) || pair_eqb c (last_of s (a_last a))
+              | _ => true
+              end in
+    let last' := match o with
+                 | InterimTick _ _ _ _ _ _ => if ack && (w_st w =? ST_INTERIM) then (s, c) :: a_last a else a_last a
+                 | _ => a_last a
+                 end in
+    (ok, mkA last' ((s, w_st w, c) :: a_sent a)).
+
+Fixpoint run7 (o : op) (a : aux) (es : list (wrec * bool)) : bool * aux :=
+  match es with
+  | [] => (true, a)
+  | e :: tl => let '(ok, a') := ev7 o a e in
+               if ok then run7 o a' tl else (false, a')
+  end.
+
+Definition pre7 (a : aux) (o : op) (r : out) : aux :=
+  match o with
+  | Start s _ _ _ => if ran r then mkA ((s, (0, 0)) :: a_last a) (a_sent a) else a
+  | _ => a
+  end.
+
+Definition accept7 (st : sstate * aux) (o : op) (r : out) : (sstate * aux) + N :=
+  match accept (fst st) o r with
+  | inr c => inr c
+  | inl ss' => let '(ok, a') := run7 o (pre7 (snd st) o r) (o_ev r) in
+               if ok then inl (ss', a') else inr 7
+  end.
